@@ -46,7 +46,7 @@ class Brute_force_solver:
         self.optimal_maxsizemindegree = self.model.num_projects
         self.optimal_generousmaxprofile = []
         self.optimal_greedymaxprofile = []
-        self.optimal_greedyprofile = [0] * num_students
+        self.optimal_greedyprofile = [0] * len(self.model.rank_lists)
         self.optimal_max_lec_abs_diff = self.model.get_max_lec_upper_quota()
         self.optimal_sum_lec_abs_diff = (
             self.model.get_max_lec_upper_quota() * num_lecturers)
